@@ -625,6 +625,19 @@ class Prov:
                 p = p[2:]
             self._operand(body, t.args[0], (("item",),) + tuple(p), ctx, out, seen)
             return
+        if m in ("zip", "enumerate") and c.trait == "std::iter::Iterator" and t.args:
+            # the item is a pair: `.0` comes from the receiver (zip) / is the running index (enumerate), `.1` from the other side / the receiver
+            p = list(path)
+            if len(p) >= 2 and p[0][0] == "item" and p[1][0] == "f" and p[1][1] in ("0", "1"):
+                side = int(p[1][1])
+                rest = tuple(p[2:])
+                if m == "zip" and len(t.args) == 2:
+                    self._operand(body, t.args[side], (("item",),) + rest, ctx, out, seen)
+                    return
+                if m == "enumerate":
+                    if side == 1:
+                        self._operand(body, t.args[0], (("item",),) + rest, ctx, out, seen)
+                    return
         if m in MAP_LIKE and t.args:
             # result (item) ⊇ closure return; plus default/init args
             p = list(path)
